@@ -26,7 +26,7 @@ def _all_strings(node):
         yield str(node)
 
 
-NAME_POOL = ["@q_", "@macro_B_", "@zz_c_", "@d1_", "@long_name_E_", "@f_", "@mG_", "@a_very_long_macro_name_H_"]
+NAME_POOL = ["@q_", "@macro_B_", "@zz_c_", "@d1_", "@long_name_E_", "@f_", "@mG_", "@a_very_long_macro_name_H_", "@gp-reg_", "@save.all_", "@k-9_"]
 
 
 class Opaque(dict):
